@@ -2,7 +2,7 @@
 import uuid
 from soundevent import data
 from soundevent.operations import segment_clip
-from vt.enc import ticks
+from vt.enc import ticks, limbs
 
 PROPERTY = "C14"
 TRACE = "T_Segment"
@@ -41,16 +41,46 @@ def _run(case, u):
         b = list(segment_clip(clip, case["d"] * u, **kw))
         c = list(segment_clip(other, case["d"] * u, **kw))
     except Exception as ex:
-        return {"raised": type(ex).__name__, "w": [], "w2": [], "samerec": True, "ids_distinct": True, "ids_repeat": True}
+        return {"raised": type(ex).__name__, "w": [], "w2": [], "idmap": [], "samerec": True, "ids_distinct": True, "ids_repeat": True}
+    # a second call on the SAME parent with another duration: windows with the same bounds must get the same identifier
+    try:
+        d2 = list(segment_clip(clip, (case["d"] + 1) * u, **kw))
+    except Exception:
+        d2 = []
+    ids = {}
+    idmap = [[ticks(x.start_time, u), ticks(x.end_time, u), ids.setdefault(x.uuid, len(ids) + 1)] for x in a + d2]
     return {"raised": "",
             "w": [[ticks(x.start_time, u), ticks(x.end_time, u)] for x in a],
             "w2": [[ticks(x.start_time, u), ticks(x.end_time, u)] for x in c],
+            "idmap": idmap,
             "samerec": all(x.recording == clip.recording for x in a) and all(x.recording == other.recording for x in c),
             "ids_distinct": len({x.uuid for x in a}) == len(a) and len({x.uuid for x in c}) == len(c),
             "ids_repeat": [x.uuid for x in a] == [x.uuid for x in b]}
 
+
+STRESS_UNITS = [0.1, 0.3, 1.0 / 3.0]      # not representable: only clauses that are robust against one-ulp effects apply
+
+def _stress(case, u):
+    """decimal units: bounds are shipped as limb numbers; only order facts are judged (InsideNonEmpty)"""
+    clip = data.Clip(recording=_REC, start_time=case["s"] * u, end_time=case["e"] * u,
+                     uuid=uuid.UUID(int=9_000_000 + case["s"] * 1024 + case["e"]))
+    kw = {}
+    if case["h"]:
+        kw["hop"] = case["h"][0] * u
+    if case["inc"]:
+        kw["include_incomplete"] = True
+    try:
+        a = list(segment_clip(clip, case["d"] * u, **kw))
+    except Exception as ex:
+        return {"raised": type(ex).__name__, "cs": limbs(clip.start_time), "ce": limbs(clip.end_time), "segs": [],
+                "samerec": True, "ids_distinct": True}
+    return {"raised": "", "cs": limbs(clip.start_time), "ce": limbs(clip.end_time),
+            "segs": [[limbs(x.start_time), limbs(x.end_time)] for x in a],
+            "samerec": all(x.recording == clip.recording for x in a),
+            "ids_distinct": len({x.uuid for x in a}) == len(a)}
+
 def execute(case):
-    return {"runs": [_run(case, u) for u in UNITS]}
+    return {"runs": [_run(case, u) for u in UNITS], "stress": [_stress(case, u) for u in STRESS_UNITS]}
 
 def random_cases(rng, tier):
     n = 1500 if tier == "quick" else 15000
